@@ -8,6 +8,8 @@ const (
 	cstYieldFromRangeVar = "ʌ" // v۰
 	cstRedeclVar         = "ɐ" // redeclared variable
 
+	cstArrVar = "ɐɹɹ" // non-addressable array operand of range
+
 	cstPairKey = "Key"
 	cstPairVal = "Val"
 
